@@ -605,7 +605,7 @@ public:
       else if (r.t.kind == sim::Trapped::THREW) why = "hexsim threw '" + r.t.what + "' inside the ISA's defined domain";
       else if (r.out != rio.out) why = "stdout '" + clip(r.out, 24) + "' (" + std::to_string(r.out.size()) + " bytes), ISA model '" + clip(rio.out, 24) + "' (" + std::to_string(rio.out.size()) + " bytes)";
       else if (r.consumed != rio.inPos) why = "stdin consumed " + std::to_string(r.consumed) + ", ISA model " + std::to_string(rio.inPos);
-      else if (exited && !viaXrun && (asTool ? (r.t.status & 0xFF) != (int)(m.exitValue & 0xFF) : (uint32_t)r.t.status != m.exitValue)) why = "exit status " + std::to_string(r.t.status) + ", ISA model " + std::to_string((int32_t)m.exitValue);
+      else if (exited && (asTool ? (r.t.status & 0xFF) != (int)(m.exitValue & 0xFF) : (uint32_t)r.t.status != m.exitValue)) why = "exit status " + std::to_string(r.t.status) + ", ISA model " + std::to_string((int32_t)m.exitValue);
       else if (!asTool && r.syscalls != refSys) why = "system-call sequence differs from the ISA model (" + std::to_string(r.syscalls.size()) + " vs " + std::to_string(refSys.size()) + " calls)";
       else {
         for (int f = 0; f < 8 && why.empty(); f++) {
